@@ -172,3 +172,19 @@ B("c01-pacman-bounds-swapped", "C01", "C01.R5", (R + "pac_man/env.py", "PacMan.o
 B("c01-tsp-coords-box", "C01", "C01.R6", (R + "tsp/generator.py", "UniformGenerator.__call__", "expr", "jax.random.uniform(sample_key, (self.num_cities, 2), minval=0, maxval=1)", "jax.random.uniform(sample_key, (self.num_cities, 2), minval=0, maxval=2)"))
 B("c01-cleaner-count-tight", "C01", "C01.R3", (R + "cleaner/env.py", "Cleaner.observation_spec", "expr", "specs.BoundedArray((), jnp.int32, 0, self.time_limit, 'step_count')", "specs.BoundedArray((), jnp.int32, 0, self.time_limit - 1, 'step_count')"))
 T("c01-twin-count-unbounded", "C01", (R + "cleaner/env.py", "Cleaner.observation_spec", "expr", "specs.BoundedArray((), jnp.int32, 0, self.time_limit, 'step_count')", "specs.Array((), jnp.int32, 'step_count')"))
+B("c18-match-dollar", "C18", "C18.R1", (G, "parse_env_id", "expr", "ENV_NAME_RE.fullmatch(id)", "ENV_NAME_RE.match(id)"))
+B("c11-maze-default-square", "C11", "C11.R1", (R + "maze/env.py", "Maze.__init__", "expr", "self.num_rows * self.num_cols", "self.num_rows * self.num_rows"))
+B("c11-mmst-buffer-length", "C11", "C11.R4", (R + "mmst/env.py", "MMST._state_to_timestep", "expr", "self.time_limit", "state.connected_nodes.shape[-1]"))
+
+# ---------------------------------------------------------------- C09 (tables) and C04.R4
+B("c09-maze-switch-order", "C09", "C09.R1", (R + "maze/env.py", "Maze.step", "expr", "Position(position.row, position.col + 1)", "Position(position.row, position.col - 1)", 1),
+  (R + "maze/env.py", "Maze.step", "expr", "Position(position.row, position.col - 1)", "Position(position.row, position.col + 1)", 2))
+B("c04-maze-switch-vs-moves", "C04", "C04.R4", (R + "maze/constants.py", "", "expr", "[[-1, 0], [0, 1], [1, 0], [0, -1]]", "[[-1, 0], [0, -1], [1, 0], [0, 1]]"))
+B("c09-snake-moves-order", "C09", "C09.R1", (R + "snake/env.py", "Snake", "expr", "[[-1, 0], [0, 1], [1, 0], [0, -1]]", "[[-1, 0], [0, -1], [1, 0], [0, 1]]"))
+B("c09-lbf-moves", "C09", "C09.R1", (R + "lbf/constants.py", "", "expr", "[[0, 0], [-1, 0], [1, 0], [0, -1], [0, 1], [0, 0]]", "[[0, 0], [1, 0], [-1, 0], [0, -1], [0, 1], [0, 0]]"))
+B("c09-connector-constants", "C09", "C09.R1", (R + "connector/constants.py", "", "replace_stmt", "RIGHT = 2", "RIGHT = 4"), (R + "connector/constants.py", "", "replace_stmt", "LEFT = 4", "LEFT = 2"))
+B("c09-connector-generator-pair", "C09", "C09.R1", (R + "connector/generator.py", "RandomWalkGenerator._action_from_tuple", "expr", "jnp.array([UP, DOWN, LEFT, RIGHT, NOOP])", "jnp.array([DOWN, UP, LEFT, RIGHT, NOOP])"))
+B("c09-pacman-copy-diverges", "C09", "C09.R1", (R + "pac_man/utils.py", "player_step", "expr", "(position.y, position.x - steps)", "(position.y, position.x + steps)"))
+B("c09-sliding-up", "C09", "C09.R1", (L + "sliding_tile_puzzle/constants.py", "", "replace_stmt", "UP = [-1, 0]", "UP = [1, 0]"))
+B("c09-rw-forward", "C09", "C09.R1", (R + "robot_warehouse/utils_agent.py", "get_new_position_after_forward", "expr", "x - 1", "x + 1"))
+T("c09-twin-maze-kwargs", "C09", (R + "maze/env.py", "Maze.step", "expr", "Position(position.row - 1, position.col)", "Position(row=position.row - 1, col=position.col)"))
